@@ -367,6 +367,23 @@ fn c10_gen_ack_ample_n3_inside() {
     gen_ack_case::<3, 0>([CONFIRMED, RCVD, RCVD], 1, 0, Some(64));
 }
 
+/// R R at the 1/2-byte varint boundary of Largest Acknowledged (62, 63 -> largest 62): one run.
+#[kani::proof]
+#[kani::unwind(8)]
+#[kani::stub(tokio::time::Instant::elapsed, stub_elapsed_100us)]
+fn c10_gen_ack_ample_n2_run() {
+    gen_ack_case::<2, 100>([RCVD, RCVD], 1, 61, Some(64));
+}
+
+/// A single received number, EVERY capacity 0..=64: Err exactly when the five mandatory bytes do
+/// not fit, otherwise a frame acknowledging exactly that number.
+#[kani::proof]
+#[kani::unwind(8)]
+#[kani::stub(tokio::time::Instant::elapsed, stub_elapsed_0)]
+fn c10_gen_ack_anycap_n1() {
+    gen_ack_case::<1, 0>([RCVD], 0, 7, None);
+}
+
 // (ii) every capacity 0..=64 (symbolic) on 3-record windows: fits / Err-iff / truthful / truncation.
 
 /// R . C : the additional range is closed by the end of the window.
